@@ -60,7 +60,7 @@ func VerifC18Store() {
 	masks := []int{63, 1, 2, 8, 32, 12, 0, 62}
 	for op := 0; op < nops; op++ {
 		u := vapi.Pick("uid", 2)
-		switch vapi.Pick("op", 5) {
+		switch vapi.Pick("op", 4+vapi.Param("upload", 1)) {
 		case 4: // one usage upload carrying both users (arbitrary usage): credits of the existing ones go down by it
 			upA, downA, upB, downB := vapi.I64("upA"), vapi.I64("downA"), vapi.I64("upB"), vapi.I64("downB")
 			var err error
